@@ -376,7 +376,9 @@ func checkContexts(t *fw.T, r *rand.Rand, prog *gen.Node, stratum string) {
 		var obs []ctxObs
 		var p *parser.Parser
 		var err error
-		wit := func() map[string]any { return map[string]any{"source": src, "mode": m.String(), "fn_keyword_plugin": fnPlugin} }
+		wit := func() map[string]any {
+			return map[string]any{"source": src, "mode": m.String(), "fn_keyword_plugin": fnPlugin}
+		}
 		nestEvery, nested := 0, 0
 		if r.IntN(2) == 0 {
 			nestEvery = 1 + r.IntN(5)
